@@ -142,12 +142,15 @@ def run(cx):
         for s in f0:
             cx.check('C12.G2', not cx.has_guard(s, r'^var\(\w+\)$') or not cx.has_guard(s, r'^\^arg3$'), u.path, s.key(), 'Ok(false)-only-when-not(updated&&auto)', '', s.loc)
     rc = cx.fn('C12.G1', S + 'update_records::{closure#0}::{closure@retain#0}')
-    for g in prog.find(r'SqliteZoneHandler::update_records::\{closure#0\}::\{closure[^}]*\}$'):
-        t = cx.true_returns(g)
-        if any('record_type' in s.term or any('record_type' in e for e in s.extra) for s in t) and any('name' in s.term or cx.has_guard(s, r'name') for s in t):
-            # retain predicate: keep if other name, or apex SOA/NS ... as written: name != rr_name || ((SOA||NS) && name != origin)
-            kept = [s for s in t]
-            cx.check('C12.G1', len(kept) >= 2, g.path, 'ret', 'retain-keeps-other-names-and-SOA/NS', f'{len(kept)} keep paths')
+    if rc:
+        # RFC 2136 3.4.2.3, CLASS ANY TYPE ANY: "all Zone RRs with the same NAME are deleted, unless the NAME is the same as ZNAME
+        # in which case only those RRs whose TYPE is other than SOA or NS are deleted".  The retain predicate (true = keep) is
+        # therefore exactly   other-name  OR  ((SOA or NS) AND name == origin)   =   (other|SOA|NS) AND (other|at-origin)
+        OTHER = r"!eq:LowerName\(arg2\.name,into<LowerName>\(<Iter<'a;T> as Iterator>::next\(\^\^arg2\)@Some\.0\.name\)\)"
+        SOA_ = r'eq:RecordType\(RecordType::SOA,arg2\.record_type\)'
+        NS_ = r'eq:RecordType\(RecordType::NS,arg2\.record_type\)'
+        APEX = r'eq:LowerName\(<SqliteZoneHandler<P> as ZoneHandler>::origin\(\^\^arg1\),arg2\.name\)'
+        cx.bool_cnf('C12.G1', rc, [[OTHER, SOA_, NS_], [OTHER, APEX]], 'delete-all-at-name:keep=other-name-or-apex-SOA/NS')
     # upsert: CNAME exclusivity before insert
     up = cx.fn('C12.G1', 'hickory_server::store::in_memory::inner::InnerInMemory::upsert')
     if up:
